@@ -31,6 +31,7 @@ Seq_9_300 == <<9, 300>>
 Seq_1_2 == <<1, 2>>
 Seq_1_2_3 == <<1, 2, 3>>
 Seq_1_2_3_2 == <<1, 2, 3, 2>>
+Seq_100_120_90 == <<100, 120, 90>>
 Seq_1_1_1 == <<1, 1, 1>>
 CSizes_distinct == <<400, 410, 405, 430, 390, 440>>
 CSizes_ties == <<400, 410, 410, 400, 410, 400>>
